@@ -6,12 +6,14 @@ package main
 import (
 	"bytes"
 	"context"
+	"encoding/json"
 	"errors"
 	"fmt"
 	"io"
 	"net/http"
 	"net/url"
 	"os"
+	"os/exec"
 	"strings"
 	"time"
 
@@ -600,6 +602,28 @@ func init() {
 			"net/http, grpc metadata/status helpers are trusted", "quick tier: pairwise rather than full product of the alphabets"},
 		Units: func(tier string) []Unit {
 			return chunkUnits("C18", c18Scenarios(tier), 40)
+		},
+		// the fake transport's modelling assumption and a sample of cases (incl. the recorded finding)
+		// are replayed on the uninstrumented library over a real net/http transport and loopback server
+		Post: func() (map[string]any, string) {
+			bin := os.Getenv("VERIF_CROSSCHECK")
+			if bin == "" {
+				return nil, ""
+			}
+			out, err := exec.Command(bin).Output()
+			var res struct {
+				Cases         int      `json:"cases"`
+				Agreements    int      `json:"agreements"`
+				Disagreements []string `json:"disagreements"`
+				Notes         []string `json:"notes"`
+			}
+			if jerr := json.Unmarshal(out, &res); jerr != nil {
+				return nil, fmt.Sprintf("crosscheck failed: %v %s", err, out)
+			}
+			if len(res.Disagreements) > 0 {
+				return nil, fmt.Sprintf("the fake transport and the real net/http stack disagree: %v", res.Disagreements)
+			}
+			return map[string]any{"crosscheck_real_transport_cases": res.Cases, "crosscheck_agreements": res.Agreements, "crosscheck_notes": res.Notes}, ""
 		},
 	})
 }
